@@ -277,8 +277,8 @@ def check_all(trace, props=("C07", "C08", "C09", "C11", "C12", "C13", "C17")):
                         fails["C17"].append({"leg": n, "msg": "sample %d at %r, nominal %r" % (k, float(T), float(nominal))})
                     if leg.get("write") is None:
                         fails["C17"].append({"leg": n, "msg": "sampling event did not write"})
-                if kind == "end_of_run":
-                    te = fr(h["end_of_run_time"])
+                if kind == "end_of_run" and trace.get("end_of_run_time") is not None:
+                    te = fr(trace["end_of_run_time"])
                     if T != te:
                         fails["C17"].append({"leg": n, "msg": "run ended at %r instead of %r" % (float(T), float(te))})
                 if kind in ("sampling", "end_of_run") and leg.get("wstate") is not None:
@@ -295,10 +295,7 @@ def check_all(trace, props=("C07", "C08", "C09", "C11", "C12", "C13", "C17")):
         prev_leg = leg
     # end of run: number of samples == number of sampling times before the end
     if "C17" in props and trace.get("ended") == "end_of_run":
-        te = None
-        for hi, h in enumerate(meta["handlers"]):
-            if "end_of_run_time" in h:
-                te = fr(h["end_of_run_time"])
+        te = fr(trace["end_of_run_time"]) if trace.get("end_of_run_time") is not None else None
         for hi, times in sample_times.items():
             h = meta["handlers"][hi]
             if "sampling_interval" in h and te is not None and handler_kind(meta, hi) == "sampling":
